@@ -120,10 +120,13 @@ class _Interposer:
             self.calls.append({"key": np.asarray(jax_key_data(key)).tolist(), "shape": tuple(shape)})
             s, *rest = shape
             n = int(np.prod(rest))
-            if s != 2**n:
-                msg = f"interposer expects num_probes == 2^{n}, got {s}"
+            if s % (2**n) != 0:
+                msg = f"interposer needs num_probes to be a multiple of 2^{n}, got {s}"
                 raise AssertionError(msg)
+            # whatever probe shape the handler asks for: every sign pattern of that shape equally often, so that the
+            # average over the probes is the exact expectation of the handler's estimator
             signs = np.asarray(list(itertools.product([-1.0, 1.0], repeat=n)))
+            signs = np.tile(signs, (s // 2**n, 1))
             return jnp.asarray(signs.reshape((s, *rest)), dtype=dtype)
 
         brandom.rademacher = fake
